@@ -679,7 +679,15 @@ macro_rules! impl_graph_traits {
                 // a node that is not in the graph has no entry in the order map
                 self.graph.node_weight(n)?;
                 self.order_map.remove_node(n, &self.graph);
-                self.graph.remove_node(n)
+                // A graph with compact indices moves its last node into the
+                // freed slot: that node then needs its position under its
+                // new index.
+                let last = NodeIndex::new(self.graph.node_bound() - 1);
+                let weight = self.graph.remove_node(n);
+                if last != n && self.graph.node_weight(last).is_none() {
+                    self.order_map.rename_node(last, n, &self.graph);
+                }
+                weight
             }
         }
 
